@@ -18,7 +18,7 @@ RULE = ("a FakeBLE object on a simulated radio; a case = (MAC form, name None/st
         "pa flag/level, chunk lengths, form, channel history).")
 REQUIRED = {"decoded_by_phone": 800, "fields_match": 800, "len_available": 800,
             "valueerror_boundary": 300, "channel_histories": 300}
-BUDGET = {"quick": 150, "thorough": 400}
+BUDGET = {"quick": 480, "thorough": 900}
 
 
 def gen_cases(ctx):
